@@ -235,7 +235,7 @@ def full_snapshot(tf):
         return {"unreadable": type(ex).__name__ + ": " + str(ex)[:120]}
 
 
-def ev(e, env=None, log=None):
+def ev(e, env=None, log=None, trace=None):
     """evaluate a frame expression on the real library.  env: objects bound by {"op": "ref", "i": k} (reused, not
     rebuilt); log: list receiving a record for every input of a cat that is not the same after the cat as before."""
     op = e["op"]
@@ -244,11 +244,11 @@ def ev(e, env=None, log=None):
     if op == "build":
         return build_frame(e["frame"])
     if op == "sel":
-        return ev(e["of"], env, log)[to_index_obj(e["idx"])]
+        return ev(e["of"], env, log, trace)[to_index_obj(e["idx"])]
     if op == "via":
-        return via(ev(e["of"], env, log), e["how"])
+        return via(ev(e["of"], env, log, trace), e["how"])
     if op == "cat":
-        parts = [ev(p, env, log) for p in e["parts"]]
+        parts = [ev(p, env, log, trace) for p in e["parts"]]
         form = e.get("form", "list")            # every accepted call form of torch_frame.cat(lst, dim)
         def call():
             if form == "tuple":
@@ -262,13 +262,19 @@ def ev(e, env=None, log=None):
         if log is None:
             return call()
         snaps = [full_snapshot(p) for p in parts]
+        res = None
         try:
-            return call()
+            res = call()
+            return res
         finally:
-            for k, (p, before) in enumerate(zip(parts, snaps)):
-                after = full_snapshot(p)
+            afters = [full_snapshot(p) for p in parts]
+            for k, (before, after) in enumerate(zip(snaps, afters)):
                 if after != before:
                     log.append({"part": k, "dim": e["dim"], "before": before, "after": after})
+            if trace is not None and all("names" in x for x in snaps + afters):
+                # the column-name lists of the parts before and after the call, and those of the result
+                trace.append({"dim": e["dim"], "before": [x["names"] for x in snaps], "after": [x["names"] for x in afters],
+                              "result": None if res is None else [[s_.value, list(nm)] for s_, nm in res.col_names_dict.items()]})
     raise ValueError(op)
 
 
